@@ -296,3 +296,8 @@ pub fn cap_timeout(timeout: Duration) -> Duration {
         timeout
     }
 }
+
+/// Copy of the events recorded so far (the session goes on).
+pub fn cap_events_snapshot() -> Vec<String> {
+    cap_lock().events.clone()
+}
